@@ -230,3 +230,41 @@ pub fn gen_c19(rng: &mut Rng, thorough: bool, emit: &mut dyn FnMut(DirCase)) {
     let long = "x".repeat(5000);
     emit(DirCase { path: long.into_bytes(), auto_gzip: true, ae: Some(b"gzip".to_vec()), extra: vec![], class: "N:long-name".into() });
 }
+
+/// One FsDir used for several lookups while the tree changes in between: a sibling that appears later must be
+/// found, one that disappears must no longer be used -- every lookup looks at the directory as it is then
+/// (C19: "that sibling exists"). Harness-level checks.
+pub fn reuse_checks(rt: &tokio::runtime::Runtime) -> Vec<String> {
+    let mut fails = vec![];
+    let tmp = tempfile::tempdir().unwrap();
+    let base = tmp.path().join("base");
+    std::fs::create_dir(&base).unwrap();
+    std::fs::write(base.join("late"), "plain").unwrap();
+    std::fs::write(base.join("early"), "plain").unwrap();
+    std::fs::write(base.join("early.gz"), "gz").unwrap();
+    let dir = http_serve::dir::FsDir::builder().for_path(&base).unwrap();
+    let mut hdrs = http::HeaderMap::new();
+    hdrs.insert(http::header::ACCEPT_ENCODING, http::HeaderValue::from_static("gzip"));
+    let lookup = |name: &'static str| -> Option<bool> {
+        let d = dir.clone();
+        let h = hdrs.clone();
+        rt.block_on(async move { tokio::spawn(async move { d.get(name, &h).await }).await }).ok().and_then(|r| r.ok()).map(|n| n.encoding().is_some())
+    };
+    if lookup("late") != Some(false) {
+        fails.push("first-lookup-without-sibling".to_string());
+    }
+    if lookup("early") != Some(true) {
+        fails.push("first-lookup-with-sibling".to_string());
+    }
+    std::fs::write(base.join("late.gz"), "gz").unwrap();
+    std::fs::remove_file(base.join("early.gz")).unwrap();
+    for round in 0..2 {
+        if lookup("late") != Some(true) {
+            fails.push(format!("sibling-created-after-an-earlier-lookup-is-not-substituted(round={})", round));
+        }
+        if lookup("early") != Some(false) {
+            fails.push(format!("sibling-removed-after-an-earlier-lookup-is-still-reported(round={})", round));
+        }
+    }
+    fails
+}
